@@ -125,7 +125,7 @@ type failure struct {
 func main() {
 	seed := flag.Int64("seed", 1, "random seed (all randomness derives from it)")
 	n := flag.Int("n", 20, "number of grammars")
-	pigeon := flag.String("pigeon", "/verif/build/bin/pigeon-verif", "pigeon binary (a -tags verif build works too)")
+	pigeon := flag.String("pigeon", "/verif/build/bin/pigeon", "pigeon binary (a -tags verif build works too)")
 	includeKnown := flag.Bool("include-known", false, "lift the known-defect avoidance")
 	lift := flag.String("lift", "", "lift single avoidances: comma-separated list of "+strings.Join(pvpeg.AvoidNames(), ","))
 	out := flag.String("out", "/tmp/pvt.pve2e.out", "directory for failing inputs")
@@ -202,6 +202,21 @@ func build(seed int64, i int, av pvpeg.Avoid, recv string) (*past.Grammar, strin
 		cfg.LeftRec = true
 		cfg.NoState = true // D6
 	}
+	if r.Intn(2) == 0 {
+		// feature placement: one kind of code-bearing expression occurs ONLY in one kind of context (what the
+		// builder emits depends on which features it saw and where: state blocks only inside predicates, ...)
+		kinds := []int{pvpeg.KState, pvpeg.KState, pvpeg.KState, pvpeg.KState, pvpeg.KAndCode, pvpeg.KNotCode, pvpeg.KAction, pvpeg.KThrow, pvpeg.KLabeled}
+		ctxs := []uint32{1<<pvpeg.KAnd | 1<<pvpeg.KNot, 1 << pvpeg.KAnd, 1 << pvpeg.KNot, 1 << pvpeg.KOpt, 1<<pvpeg.KStar | 1<<pvpeg.KPlus,
+			1 << pvpeg.KRecovery, 1 << pvpeg.KAction, 1 << pvpeg.KLabeled, 1 << pvpeg.KChoice}
+		k := kinds[r.Intn(len(kinds))]
+		cfg.OnlyUnder = map[int]uint32{k: ctxs[r.Intn(len(ctxs))]}
+		if k == pvpeg.KState && !cfg.LeftRec {
+			cfg.NoState = false
+		}
+		if k == pvpeg.KThrow {
+			cfg.NoThrow = false
+		}
+	}
 	g := pvpeg.Gen(r, cfg)
 	st := pvpeg.Styles[r.Intn(len(pvpeg.Styles))]
 	st.Avoid = av
@@ -267,8 +282,16 @@ func makeGram(seed int64, i int, av pvpeg.Avoid, all bool) *gram {
 		sets = append(sets, c, r1, r2)
 	} else {
 		seenMask := map[int]bool{}
+		sets0mask := 0
 		for len(sets) < 4 {
 			m := r.Intn(32)
+			if len(sets) == 1 {
+				// the template guards are keyed on -optimize-parser: every grammar is built both ways
+				m = sets0mask ^ 1
+			}
+			if len(sets) == 0 {
+				sets0mask = m
+			}
 			if seenMask[m] {
 				continue
 			}
